@@ -18,9 +18,12 @@ import (
 
 // job = (file [truncated to N bytes], format or "probe", per-format options, rendering)
 //
-//	text:  <path relative to the repository>[@N]|<format>|<k=v,k=v or ->|<dv|json|d>
+//	text:  <path relative to the repository>[@N]|<format>|<k=v;k=v or ->|<dv|json|d>
 type job struct {
 	path   string
+	mutPos int // byte mutPos set to mutVal when mutPos >= 0 (`path~P:V`, used by the directed search)
+	mutVal byte
+	hasMut bool
 	trunc  int // -1 = whole file
 	format string
 	opts   []string // "k=v", sorted
@@ -35,12 +38,15 @@ var renders = map[string]string{
 
 func (j job) String() string {
 	p := j.path
+	if j.hasMut {
+		p += fmt.Sprintf("~%d:%d", j.mutPos, j.mutVal)
+	}
 	if j.trunc >= 0 {
 		p += "@" + strconv.Itoa(j.trunc)
 	}
 	o := "-"
 	if len(j.opts) > 0 {
-		o = strings.Join(j.opts, ",")
+		o = strings.Join(j.opts, ";")
 	}
 	return p + "|" + j.format + "|" + o + "|" + j.render
 }
@@ -58,8 +64,15 @@ func parseJob(s string) (job, error) {
 		}
 		j.path, j.trunc = fs[0][:i], n
 	}
+	if i := strings.LastIndexByte(j.path, '~'); i >= 0 {
+		var pos, val int
+		if _, err := fmt.Sscanf(j.path[i+1:], "%d:%d", &pos, &val); err != nil || pos < 0 || val < 0 || val > 255 {
+			return job{}, fmt.Errorf("job %q: bad mutation", s)
+		}
+		j.path, j.mutPos, j.mutVal, j.hasMut = j.path[:i], pos, byte(val), true
+	}
 	if fs[2] != "-" {
-		j.opts = strings.Split(fs[2], ",")
+		j.opts = strings.Split(fs[2], ";")
 		for _, o := range j.opts {
 			if !strings.Contains(o, "=") {
 				return job{}, fmt.Errorf("job %q: bad option %q", s, o)
@@ -99,6 +112,9 @@ func (j job) load() ([]byte, error) {
 	b, err := os.ReadFile(filepath.Join(repoDir(), j.path))
 	if err != nil {
 		return nil, err
+	}
+	if j.hasMut && j.mutPos < len(b) {
+		b[j.mutPos] = j.mutVal
 	}
 	if j.trunc >= 0 && j.trunc < len(b) {
 		b = b[:j.trunc]
@@ -233,6 +249,28 @@ func formatOptions() []fopt {
 	return out
 }
 
+// display options (pkg/interp options that only influence rendering): part of every job's option space —
+// colour tables, number bases, truncation.  Values chosen so that two jobs differ (a partial byte_colors
+// after a full one, …).
+var displayOptions = [][]string{
+	{"color=true"},
+	{"color=true", "byte_colors=65-90=red"},
+	{"color=true", "byte_colors=0-31=blue,128-255=green"},
+	{"color=true", "unicode=true"},
+	{"color=true", "colors=null=red,number=blue,string=yellow"},
+	{"unicode=true"},
+	{"line_bytes=8"},
+	{"line_bytes=20", "display_bytes=4"},
+	{"addrbase=10", "sizebase=16"},
+	{"array_truncate=2", "string_truncate=5"},
+	{"verbose=true"},
+	{"depth=2"},
+	{"bits_format=hex"},
+	{"bits_format=base64"},
+	{"skip_gaps=true"},
+	{"compact=true"},
+}
+
 func (o fopt) pick(r *hlib.Rand) string {
 	switch o.kind {
 	case reflect.Bool:
@@ -307,6 +345,10 @@ func (g *gen) jobOn(f cfile) job {
 	}
 	if g.r.Intn(5) < 2 {
 		j.opts = g.optsFor(j.format, f.native)
+	}
+	if g.r.Intn(4) == 0 {
+		j.opts = append(j.opts, displayOptions[g.r.Intn(len(displayOptions))]...)
+		sort.Strings(j.opts)
 	}
 	return j
 }
